@@ -1,6 +1,8 @@
 ---- MODULE MC_Images ----
 (* Case sets for Images.tla.  A case is [content, env, regs]: what the user hands to the
-   library, the environment's parameters, and the memory before the first call. *)
+   library, the environment's parameters, and the memory before the first call.  The sets hold
+   small parameter tuples; MCMkCase expands one into the concrete case (TLC normalises every
+   constant set before it starts, so the sets must stay cheap). *)
 EXTENDS Images
 
 AllBytes == 0..255
@@ -20,93 +22,97 @@ F8 == << <<0, 0, 0, 0, 0, 0, 0, 0>>, <<0, 0, 0, 0, 0, 0, 240, 63>>, <<0, 0, 0, 0
          <<0, 0, 0, 96, 251, 33, 9, 64>> >>
 Dl(i) == F8[(i % Len(F8)) + 1]
 
-\* ------------------------------------------------------------------ EEPROM
-EeCase(v, ch, sp, p, a, fill, cor) ==
-    [content |-> [ver |-> v, ch |-> ch, speed |-> sp, pitch |-> Fl(p), roll |-> Fl(p + 3), addr |-> a],
-     env |-> [fill |-> fill, cor |-> cor], regs |-> (0 :> Blank(32, fill))]
+\* ------------------------------------------------------------------ EEPROM: <<ver, ch, speed, float index, addr, fill, corruptible>>
+EeCase(p) ==
+    [content |-> [ver |-> p[1], ch |-> p[2], speed |-> p[3], pitch |-> Fl(p[4]), roll |-> Fl(p[4] + 3), addr |-> p[5]],
+     env |-> [fill |-> p[6], cor |-> p[7]], regs |-> (0 :> Blank(32, p[6]))]
 A1 == <<231, 231, 231, 231, 231>>
 A2 == <<1, 2, 3, 4, 5>>
-EeQuick == <<{EeCase(v, ch, sp, p, a, fill, FALSE) : v \in {0, 1}, ch \in {0, 80, 125}, sp \in {0, 2}, p \in {0, 6},
-                                                     a \in {A1, A2}, fill \in {0, 255}},
-             {EeCase(v, 80, 2, 1, A1, fill, TRUE) : v \in {0, 1}, fill \in {0, 255}}>>
-\* ------------------------------------------------------------------ 1-wire
+EeQuick == <<{<<v, ch, sp, p, a, fill, FALSE>> : v \in {0, 1}, ch \in {0, 80, 125}, sp \in {0, 2}, p \in {0, 6}, a \in {A1, A2}, fill \in {0, 255}},
+             {<<v, 80, 2, 1, A1, fill, TRUE>> : v \in {0, 1}, fill \in {0, 255}}>>
+
+\* ------------------------------------------------------------------ 1-wire: <<key order, lengths (id -> n), salt, memory size, corruptible>>
 OwStr(id, n, salt) == [i \in 1..n |-> (id * 64 + i * 7 + salt) % 256]
 Orders == <<<<>>, <<1>>, <<2>>, <<3>>, <<1, 2>>, <<2, 1>>, <<1, 3>>, <<3, 1>>, <<2, 3>>, <<3, 2>>,
            <<1, 2, 3>>, <<1, 3, 2>>, <<2, 1, 3>>, <<2, 3, 1>>, <<3, 1, 2>>, <<3, 2, 1>>>>
-OwCase(o, l, salt, size, cor) ==
+OwCase(p) == LET o == p[1]  l == p[2]  salt == p[3] IN
     [content |-> [pins |-> <<salt, 1, 0, 128>>, vid |-> 188, pid |-> salt,
                   elems |-> [k \in 1..Len(o) |-> [id |-> o[k], str |-> OwStr(o[k], l[o[k]], salt)]]],
-     env |-> [size |-> size, cor |-> cor], regs |-> (0 :> Blank(size, 255))]
+     env |-> [size |-> p[4], cor |-> p[5]], regs |-> (0 :> Blank(p[4], 255))]
 Area(o, l) == LET S[k \in 0..Len(o)] == IF k = 0 THEN 0 ELSE S[k - 1] + 2 + l[o[k]] IN S[Len(o)]
-\* every order; lengths from lens[number of elements]; the image must fit the memory
+\* every order; lengths from lens[number of elements + 1]; the image must fit the memory
 OwCases(lens, salt, size, cor) ==
     [n \in 1..Len(Orders) |-> LET o == Orders[n] IN
-        {OwCase(o, l, salt, size, cor) : l \in {x \in [{o[k] : k \in DOMAIN o} -> lens[Len(o) + 1]] : 11 + Area(o, x) <= size}}]
+        {<<o, l, salt, size, cor>> : l \in {x \in [{o[k] : k \in DOMAIN o} -> lens[Len(o) + 1]] : 11 + Area(o, x) <= size /\ Area(o, x) <= 255}}]
 OwQuick == OwCases(<<{0}, 0..99, {0, 1, 2, 3, 4, 5, 30, 68, 70, 72, 95}, {0, 1, 2, 3}>>, 17, 112, FALSE)
-           \o <<{OwCase(<<1, 2>>, (1 :> 4) @@ (2 :> 2), 33, 112, TRUE)}>>
-\* ------------------------------------------------------------------ lighthouse memory
+           \o <<{<<<<1, 2>>, (1 :> 4) @@ (2 :> 2), 33, 112, TRUE>>}>>
+
+\* ------------------------------------------------------------------ lighthouse memory: <<geo ids, calib ids, pattern, nbs, reversed>>
 LhGeo(id, p) == [id |-> id, f |-> [i \in 1..12 |-> Fl(i + p + id)], valid |-> (id + p) % 3 # 0]
 LhCalib(id, p) == [id |-> id, f |-> [i \in 1..14 |-> Fl(i + 2 * p + id)], uid |-> <<id, p, 0, 255>>, valid |-> (id + p) % 3 # 1]
 LhRegs(nbs) == [a \in {b * 256 : b \in 0..(nbs - 1)} \cup {4096 + b * 256 : b \in 0..(nbs - 1)} |->
                     IF a < 4096 THEN Blank(49, 0) ELSE Blank(61, 0)]
-LhCase(G, C, p, nbs, rev) ==
+LhCase(q) == LET G == q[1]  C == q[2]  p == q[3]  rev == q[5] IN
     [content |-> [geos |-> LET s == [i \in 1..Cardinality(G) |-> LhGeo(Sorted(G)[i], p)] IN IF rev THEN Rev(s) ELSE s,
                   calibs |-> LET s == [i \in 1..Cardinality(C) |-> LhCalib(Sorted(C)[i], p)] IN IF rev THEN Rev(s) ELSE s],
-     env |-> [nbs |-> nbs], regs |-> LhRegs(nbs)]
-LhQuick == <<{LhCase(G, {15 - g : g \in G}, 1, 16, FALSE) : G \in SUBSET {0, 1, 5, 15}},
-             {LhCase({0, 1, 3}, {1, 2}, 2, 2, TRUE)}>>
-\* ------------------------------------------------------------------ files
+     env |-> [nbs |-> q[4]], regs |-> LhRegs(q[4])]
+LhQuick == <<{<<G, {15 - g : g \in G}, 1, 16, FALSE>> : G \in SUBSET {0, 1, 5, 15}}, {<<{0, 1, 3}, {1, 2}, 2, 2, TRUE>>}>>
+
+\* ------------------------------------------------------------------ files: <<geo ids, calib ids, pattern, system type>>
 LhFileGeo(id, p) == [id |-> id, f |-> [i \in 1..12 |-> Dl(i + p + id)], valid |-> (id + p) % 3 # 0]
 LhFileCalib(id, p) == [id |-> id, f |-> [i \in 1..14 |-> Dl(i + 2 * p + id)], uid |-> <<id, p, 0, 255>>, valid |-> (id + p) % 3 # 1]
-LhFileCase(G, C, p, st) ==
+LhFileCase(q) == LET G == q[1]  C == q[2]  p == q[3] IN
     [content |-> [geos |-> [i \in 1..Cardinality(G) |-> LhFileGeo(Sorted(G)[i], p)],
-                  calibs |-> [i \in 1..Cardinality(C) |-> LhFileCalib(Sorted(C)[i], p)], systype |-> st],
+                  calibs |-> [i \in 1..Cardinality(C) |-> LhFileCalib(Sorted(C)[i], p)], systype |-> q[4]],
      env |-> [none |-> 0], regs |-> <<>>]
-LhFileQuick == <<{LhFileCase(G, {15 - g : g \in G}, 1, st) : G \in SUBSET {0, 1, 5, 15}, st \in {1, 2}}>>
+LhFileQuick == <<{<<G, {15 - g : g \in G}, 1, st>> : G \in SUBSET {0, 1, 5, 15}, st \in {1, 2}}>>
 PVal(k) == CASE k = 0 -> [t |-> "i", b |-> <<0, 0, 0, 0, 0, 0, 0, 0>>]
              [] k = 1 -> [t |-> "i", b |-> <<255, 255, 255, 255, 0, 0, 0, 0>>]
              [] k = 2 -> [t |-> "f", b |-> Dl(7)]
              [] k = 3 -> [t |-> "f", b |-> Dl(3)]
              [] OTHER -> [t |-> "n", b |-> <<>>]
 Param(n, st, k) == [name |-> <<114, 105, 110, 103, 46, 101, 48 + n>>, stored |-> st, dv |-> PVal(k), sv |-> IF st THEN PVal(k + 1) ELSE PVal(9)]
-ParamFileCases == <<{[content |-> [params |-> [i \in 1..n |-> Param(i, (i + k) % 2 = 0, (i + k) % 4)]], env |-> [none |-> 0], regs |-> <<>>]
-                   : n \in 0..3, k \in 0..3}>>
+ParamFileCase(q) == [content |-> [params |-> [i \in 1..q[1] |-> Param(i, (i + q[2]) % 2 = 0, (i + q[2]) % 4)]], env |-> [none |-> 0], regs |-> <<>>]
+ParamFileCases == <<{<<n, k>> : n \in 0..3, k \in 0..3}>>
 
 \* ------------------------------------------------------------------ write-only images
 Poly(p) == [x |-> [i \in 1..8 |-> Fl(i + p)], y |-> [i \in 1..8 |-> Fl(i + p + 1)], z |-> [i \in 1..8 |-> Fl(i + p + 2)],
             yaw |-> [i \in 1..8 |-> Fl(i + p + 3)], dur |-> Fl(p + 1)]
-PolyCases == <<{[content |-> [addr |-> a, pieces |-> [i \in 1..n |-> Poly(i + p)]], env |-> [none |-> 0], regs |-> <<>>]
-              : a \in {0, 132}, n \in 0..3, p \in {0, 5}}>>
-Timing(t, r, g, b, l, f, ro) == [time |-> t, r |-> r, g |-> g, b |-> b, leds |-> l, fade |-> f, rotate |-> ro]
+PolyCase(q) == [content |-> [addr |-> q[1], pieces |-> [i \in 1..q[2] |-> Poly(i + q[3])]], env |-> [none |-> 0], regs |-> <<>>]
+PolyCases == <<{<<a, n, p>> : a \in {0, 132}, n \in 0..3, p \in {0, 5}}>>
+Timing(q) == [time |-> q[1], r |-> q[2], g |-> q[3], b |-> q[4], leds |-> q[5], fade |-> q[6], rotate |-> q[7]]
 LedCol == {0, 7, 128, 255}
-LedOne == {Timing(t, r, g, b, l, f, ro) : t \in {1, 255}, r \in LedCol, g \in LedCol, b \in LedCol, l \in {0, 15}, f \in {0, 1}, ro \in {0, 7}}
-LedCase(s) == [content |-> [timings |-> s], env |-> [none |-> 0], regs |-> <<>>]
-LedCases == <<{LedCase(<<>>)}, {LedCase(<<t>>) : t \in LedOne},
-              {LedCase(<<Timing(25, 255, 0, 0, 0, 0, 0), t, Timing(1, 0, 0, 255, 3, 1, 2)>>) : t \in LedOne}>>
+LedOne == {<<t, r, g, b, l, f, ro>> : t \in {1, 255}, r \in LedCol, g \in LedCol, b \in LedCol, l \in {0, 15}, f \in {0, 1}, ro \in {0, 7}}
+LedCase(s) == [content |-> [timings |-> [i \in 1..Len(s) |-> Timing(s[i])]], env |-> [none |-> 0], regs |-> <<>>]
+LedCases == <<{<<>>}, {<<t>> : t \in LedOne}, {<<<<25, 255, 0, 0, 0, 0, 0>>, t, <<1, 0, 0, 255, 3, 1, 2>>>> : t \in LedOne}>>
 
 \* ------------------------------------------------------------------ device-encoded sections
 DeckRecB(bf1, bf2, h, nm) == <<bf1, bf2>> \o <<h, 1, 2, 3>> \o <<4, 5, 6, h>> \o <<0, 0, h, 16>> \o nm \o Blank(18 - Len(nm), 0)
-DeckName(n) == [i \in 1..n |-> 64 + i]
-\* record 2 varies over every bit-field combination and name length; the others are fixed
-DeckCase(bf1, bf2, n, ver) ==
+DeckNm(n) == [i \in 1..n |-> 64 + i]
+\* <<bit field 1, bit field 2, name length, version>>: record 2 varies, the others are fixed
+DeckCase(q) ==
     [content |-> <<>>, env |-> [none |-> 0],
-     regs |-> (0 :> <<ver>> \o DeckRecB(15, 3, 1, DeckName(6)) \o DeckRecB(0, 0, 2, <<>>) \o DeckRecB(bf1, bf2, 3, DeckName(n))
-                    \o DeckRecB(126, 1, 4, DeckName(3)) \o DeckRecB(0, 0, 0, <<>>) \o DeckRecB(1, 0, 5, DeckName(18))
+     regs |-> (0 :> <<q[4]>> \o DeckRecB(15, 3, 1, DeckNm(6)) \o DeckRecB(0, 0, 2, <<>>) \o DeckRecB(q[1], q[2], 3, DeckNm(q[3]))
+                    \o DeckRecB(126, 1, 4, DeckNm(3)) \o DeckRecB(0, 0, 0, <<>>) \o DeckRecB(1, 0, 5, DeckNm(18))
                     \o DeckRecB(0, 0, 0, <<>>) \o DeckRecB(65, 2, 6, <<98, 99, 65, 73>>))]
-DeckQuick == <<{DeckCase(a, b, n, 3) : a \in 0..127, b \in 0..3, n \in {0, 5, 17, 18}}, {DeckCase(1, 0, 4, 2)}>>
+DeckQuick == <<{<<a, b, n, 3>> : a \in 0..127, b \in 0..3, n \in {0, 5, 17, 18}}, {<<1, 0, 4, 2>>}>>
 AnchorPage(i) == Fl(i) \o Fl(i + 4) \o Fl(i + 7) \o <<(i * 127) % 3>>
 LocoCase(n) == [content |-> <<>>, env |-> [none |-> 0],
                 regs |-> [a \in {0} \cup {4096 + 256 * i : i \in 0..(n - 1)} |-> IF a = 0 THEN <<n>> ELSE AnchorPage((a - 4096) \div 256)]]
-LocoCases == <<{LocoCase(n) : n \in 0..8}>>
+LocoCases == <<0..8>>
 IdList(s) == <<Len(s)>> \o s \o Blank(16 - Len(s), 0)
-Loco2Case(ids, act) == [content |-> <<>>, env |-> [none |-> 0],
-                        regs |-> [a \in {0, 4096} \cup {8192 + 256 * ids[i] : i \in 1..Len(ids)} |->
-                                     IF a = 0 THEN IdList(ids) ELSE IF a = 4096 THEN IdList(act) ELSE AnchorPage((a - 8192) \div 256)]]
-Loco2Cases == <<{Loco2Case(ids, act) : ids \in {<<>>, <<0>>, <<5, 2>>, <<255, 0, 17>>, <<7, 7>>, [i \in 1..16 |-> 16 - i]},
-                                     act \in {<<>>, <<5>>, <<0, 255>>}}>>
+Loco2Case(q) == LET ids == q[1]  act == q[2] IN
+    [content |-> <<>>, env |-> [none |-> 0],
+     regs |-> [a \in {0, 4096} \cup {8192 + 256 * ids[i] : i \in 1..Len(ids)} |->
+                  IF a = 0 THEN IdList(ids) ELSE IF a = 4096 THEN IdList(act) ELSE AnchorPage((a - 8192) \div 256)]]
+Loco2Cases == <<{<<ids, act>> : ids \in {<<>>, <<0>>, <<5, 2>>, <<255, 0, 17>>, <<7, 7>>, [i \in 1..16 |-> 16 - i]},
+                                act \in {<<>>, <<5>>, <<0, 255>>}}>>
 
 \* ------------------------------------------------------------------ configurations
 FmtsAll == {"eeprom", "ow", "lh", "lhfile", "paramfile", "poly", "led", "deck", "loco", "loco2"}
+MCMkCase(f, p) == CASE f = "eeprom" -> EeCase(p) [] f = "ow" -> OwCase(p) [] f = "lh" -> LhCase(p) [] f = "lhfile" -> LhFileCase(p)
+                    [] f = "paramfile" -> ParamFileCase(p) [] f = "poly" -> PolyCase(p) [] f = "led" -> LedCase(p)
+                    [] f = "deck" -> DeckCase(p) [] f = "loco" -> LocoCase(p) [] f = "loco2" -> Loco2Case(p)
 Cases(ee, ow, lh, lhf, deck) ==
     [f \in FmtsAll |-> CASE f = "eeprom" -> ee [] f = "ow" -> ow [] f = "lh" -> lh [] f = "lhfile" -> lhf
                          [] f = "paramfile" -> ParamFileCases [] f = "poly" -> PolyCases [] f = "led" -> LedCases
